@@ -103,6 +103,8 @@ def _read_all(ro):
     v['completed'] = bool(ro.completed)
     v['script'] = list(ro.script)
     v['body'] = body_view(ro.body)
+    import xmltodict
+    v['dict_ok'] = (ro.dict == xmltodict.parse(str(ro)))     # the `dict` accessor is the serialisation, parsed
     return v
 
 
@@ -227,6 +229,9 @@ def time_cases(tier, rng):
             doc = _respelt(doc, rng)
             zl += ' respelt'
         out.append((f'{n} stories [{", ".join(lbls)}] roEdStart={ed is not None}{zl}', doc))
+    # one long running order (listing it is quadratic in the library, so just one): 1200 stories with paragraphs
+    out.append(('1200 stories', B.ro_doc([B.story(f'S{k}', [B.p(f'line {k}'), B.item(f'i{k}')], md=B.timing_md(duration='1.5') if k % 3 else None)
+                                          for k in range(1200)], ed_start='2021-03-04T09:00:00')))
     out.append(('no stories', B.ro_doc([], ed_start='2021-03-04T09:00:00')))
     out.append(('no stories, no start', B.ro_doc([])))
     return out
@@ -239,7 +244,7 @@ XML_INVALID = set(range(0x00, 0x09)) | {0x0B, 0x0C} | set(range(0x0E, 0x20))
 
 
 def para_texts(rng):
-    base = ['plain', ' padded ', '(note)', '<tech>', '(half', 'half>', '()', '<>', '(', ')', '( a )', ' (note) ',
+    base = ['(CAMERA 2 WIDE,\nthen MIX TO VT)', '<ASTON one\nASTON two>', '(a\n\nb)', ' (multi\nline) ', '(unclosed\n', 'plain', ' padded ', '(note)', '<tech>', '(half', 'half>', '()', '<>', '(', ')', '( a )', ' (note) ',
             '<a>b', 'a(b)', '(a)(b)', '(a>', '<a)', 'Ünïcödé ☃ 𝄞', 'a & b < c', '', None, '\t', '\n (x) \n',
             'line1\nline2', '　wide　', '​zero-width​', '( )']
     for cp in SPACES:
@@ -411,6 +416,33 @@ def evaluate(pid, tier, seed):
                                  'label': f'state of history seed={h["seed"]} after step {st["k"]}',
                                  'history': {'seed': h['seed'], 'docs': h['docs'][:st['k'] + 2]},
                                  'live_history': hist_run.live_script(h, st['k'])}))
+    for h in hists:
+        for st in h['steps']:
+            if 'view' in st and 'view' in st['view'] and st['view']['view'].get('dict_ok') is False:
+                oc.failing.append({'kind': 'access', 'ro_text': TJ.to_text(st['obs']['ro']), 'live_history': hist_run.live_script(h, st['k']),
+                                   'label': f'ro.dict, history seed={h["seed"]} step {st["k"]} ({st["cls"]})', 'dict': True,
+                                   'spec': 'the dict accessor does not describe the current document (it differs from the parsed serialisation)'})
+    # a roReplace message object is a RunningOrder too (a subclass whose base tag is roReplace): its accessors read
+    # like those of the same document sent as a roCreate
+    for k in range(12 if tier == 'quick' else 200):
+        g = gen_hist.Gen(random.Random(seed * 31 + k))
+        rc_doc = g.ro(k % 5)
+        text_c = TJ.to_text(rc_doc)
+        text_r = text_c.replace('<roCreate>', '<roReplace>').replace('</roCreate>', '</roReplace>').replace('<roCreate ', '<roReplace ')
+        try:
+            a, b = impl.load(text_c), impl.load(text_r)
+        except Exception:  # noqa: BLE001
+            continue
+        if type(b).__name__ != 'RunningOrderReplace':
+            continue
+        va, vb = read_view(a), read_view(b)
+        oc.evaluations += 1
+        oc.count('roReplace-object')
+        strip = lambda v: {k_: v_ for k_, v_ in v.get('view', v).items() if k_ != 'dict_ok'} if 'view' in v else v
+        if strip(va) != strip(vb):
+            oc.failing.append({'kind': 'access', 'ro_text': text_r, 'label': f'accessors of a roReplace object #{k}', 'ro_replace_object': text_c,
+                               'spec': 'a RunningOrderReplace object reads like the same document sent as a roCreate (stories, items, script, body, timing)',
+                               'impl': {'as_roReplace': project(pid, vb), 'as_roCreate': project(pid, va)}})
     if pid == 'C17':
         # "notably roStorySend bodies": the story a roStorySend delivered lists exactly what was sent
         for h in hists:
@@ -516,6 +548,22 @@ def spaces_check(oc):
 
 def replay(pid, fl):
     from . import impl, lean
+    if fl.get('ro_replace_object'):
+        va, vb = read_view(impl.load(fl['ro_replace_object'])), read_view(impl.load(fl['ro_text']))
+        strip = lambda v: {k_: v_ for k_, v_ in v.get('view', v).items() if k_ != 'dict_ok'} if 'view' in v else v
+        if strip(va) != strip(vb):
+            print(f'VIOLATION property={pid} replay=(this file): still fails on the current tree')
+            return 1
+        print(f'{pid}: the recorded input no longer fails on the current tree')
+        return 0
+    if fl.get('dict'):
+        ro = hist_run.replay_live(fl['live_history'], want_object=True)
+        import xmltodict
+        if ro.dict != xmltodict.parse(str(ro)):
+            print(f'VIOLATION property={pid} replay=(this file): still fails on the current tree')
+            return 1
+        print(f'{pid}: the recorded input no longer fails on the current tree')
+        return 0
     if fl.get('held'):
         # wrappers held across the last step of the recorded live history
         lh = fl['live_history']
